@@ -219,6 +219,8 @@ func checkC14(c *Ctx) {
 	c.Rule("C14.6", "nothing but the per-byte decoder and the per-class filter decides what is delivered: EachMessage applies the step to every byte of every chunk (no chunk-level shortcut that depends on an option), and each Listen configures the decoder from its own options (= C04.1, C17.4)", 8)
 	initialAndChunking(c, "C14.6")
 	c.include(checkC17, map[string]string{"C17.4": "C14.6"})
+	c.Rule("C14.7", "the loopback port the options are observed through is a pipe (= C04.6): Send hands the caller's bytes and the elapsed virtual milliseconds to the decoder exactly once, whatever the options are — a Send that short-cuts an unwanted message must not disturb the clock of the following ones", 1)
+	c.include(checkC04, map[string]string{"C04.6": "C14.7"})
 	// ---- filter closures
 	fcs := filterClosures(p)
 	if len(fcs) < 2 {
